@@ -14,7 +14,7 @@
    ("dropped exactly once") and set's Err(value) hand-back as a theorem; blocking forms and thread interleavings. *)
 From AL Require Import Base Api OnceApi OnceInv.
 From AL.Tie Require Tie_OnceCell.
-From AL.Sched Require OnceSched.
+From AL.Sched Require OnceSched OnceOrd.
 
 Theorem C04_once : forall ops : list oop, N.of_nat (length ops) < ONCE_BOUND ->
   let x := orun ops in
@@ -48,7 +48,7 @@ Proof. intros n sched. apply OnceSched.orun_OExcl. Qed.
 Theorem C04_hb_view : forall (n : nat) (sched : list (nat * OnceSched.oaction)),
   OnceSched.OHb (OnceSched.orun OnceSched.gen_oords n sched).
 Proof.
-  intros n sched. apply OnceSched.orun_OHb. pose proof OnceSched.once_ord_premises as P.
+  intros n sched. apply OnceSched.orun_OHb. pose proof OnceOrd.once_ord_premises as P.
   unfold OnceSched.once_ord_ok in P. apply andb_prop in P. exact (proj1 P).
 Qed.
 
